@@ -692,6 +692,77 @@ def check_itp_orientation(F, run, b, loop):
     run.floor("R7.10", dp, "iterations with a recorded radius", n_r, 1, F.loc(b))
 
 
+def check_brent_return(F, run, b):
+    """R7.11 — Brent: the point handed back is the one the exit condition speaks about.  For every `Ok(x)` and every satisfiable disjunct of its
+    full condition (negated loop condition ∧ the selecting branch): either the disjunct bounds the *cached value of x itself* by the tolerance,
+    or x is an end of the bracket and the disjunct bounds the bracket width by the tolerance."""
+    from bsa import logic
+    dp = FNS["brent"]
+    cache = {"left": "f_left", "right": "f_right", "s": "f_s", "c": "f_c"}
+    fv = fvalue_locals(b)
+    binds = all_binds(b)
+    tolsym = sp.Symbol("tol", positive=True)
+    values = {nm: (sp.Symbol("fv_" + nm, real=True) if nm in fv else sym.S(nm)) for nm in binds}
+    values["tol"] = tolsym
+    values.update(constant_locals(F, b))
+    pm = cfg.parent_map(b["body"])
+    loops = [n for n in walk(b["body"], into_closures=False) if n.get("k") == "While"]
+    if len(loops) != 1:
+        run.broken("R7.11", dp, "loop", F.loc(b), "expected one main loop")
+        return
+
+    def ev(node):
+        it = guards.GInterp(F, b, lambda c: True)
+        preset_all(b, values)(it)
+        return it.ev(node)
+    n_ok = 0
+    for okn in walk(b["body"], into_closures=False):
+        if not (okn.get("k") == "Call" and (callee(okn) or "").endswith("::Ok") and okn.get("args")):
+            continue
+        if any(a is loops[0] for a in cfg.ancestors(pm, okn)) or not cfg.before(b["body"], loops[0], okn):
+            continue
+        arg = peel(okn["args"][0])
+        name = arg.get("name") if arg.get("k") == "Local" else None
+        n_ok += 1
+        if name not in cache:
+            run.fail("R7.11", dp, "returned:" + pp(okn)[:30], F.loc(b, okn), "Brent returns %s, which is not one of the tracked abscissae" % pp(arg))
+            continue
+        try:
+            conds = [sp.Not(ev(loops[0]["c"]))]
+            cur = okn
+            while id(cur) in pm:
+                par = pm[id(cur)]
+                if par.get("k") == "If" and cur is not par.get("c"):
+                    c = ev(par["c"])
+                    conds.append(c if cur is par.get("t") else sp.Not(c))
+                cur = par
+        except sym.Unsupported as u:
+            run.broken("R7.11", dp, "condition:" + name, F.loc(b, okn), str(u))
+            continue
+        d = sp.to_dnf(sp.to_nnf(sp.And(*conds), simplify=False), simplify=False)
+        own = sp.Symbol("fv_" + cache[name], real=True)
+        width_ok = name in ("left", "right")
+        for dj in (d.args if isinstance(d, sp.Or) else (d,)):
+            if logic.unsat(dj):
+                continue
+            lits = dj.args if isinstance(dj, sp.And) else (dj,)
+            good = False
+            for l in lits:
+                if isinstance(l, (sp.StrictLessThan, sp.LessThan)) and l.rhs == tolsym:
+                    if l.lhs == sp.Abs(own):
+                        good = True
+                    if width_ok and l.lhs in (sp.Abs(sym.S("left") - sym.S("right")), sp.Abs(sym.S("right") - sym.S("left"))):
+                        good = True
+            run.check(good, "R7.11", dp, "returned-point-is-the-converged-one:%s:%s" % (name, dkey_(dj)), F.loc(b, okn),
+                      "Ok(%s) can be returned when `%s`: this bounds neither f(%s) nor (for an end point) the bracket width — the tolerance was met at another point"
+                      % (name, dj, name), sample="brent: Ok(%s) under %s" % (name, str(dj)[:60]))
+    run.floor("R7.11", dp, "Ok returns after the loop", n_ok, 2, F.loc(b))
+
+
+def dkey_(dj):
+    return ",".join(sorted({str(x) for x in dj.free_symbols}))[:60]
+
+
 def check_nan_idiom(F, run):
     n_sites = 0
     for name, path in FNS.items():
@@ -766,6 +837,8 @@ def run(F, run, tier):
             check_hull_brent_itp(F, run, name, b, loop)
         if name == "itp":
             check_itp_orientation(F, run, b, loop)
+        if name == "brent":
+            check_brent_return(F, run, b)
     n_nan = check_nan_idiom(F, run)
     check_sign_three_way(F, run)
     run.extra["sign_by_division_sites"] = n_nan
